@@ -43,7 +43,32 @@ pub fn decode(bytes: &[u8]) -> Burst {
     let mut model: Vec<Option<String>> = vec![None; n_uris];
     let mut ops = Vec::new();
     let mut counter = 0usize;
-    for _ in 0..n {
+    // floods: long runs of consecutive change notifications on a larger document, so that the
+    // broker (which re-analyses on every change) falls behind and its channel of 32 fills up;
+    // the read that follows must still see every change, in order
+    let floods = if s.chance(1, 2) { 1 + s.below(3) } else { 0 };
+    let mut flood_at: Vec<usize> = (0..floods).map(|_| s.below(n)).collect();
+    flood_at.sort();
+    for step in 0..n {
+        if flood_at.contains(&step) {
+            let u = s.below(n_uris);
+            let cfg = splgen::prog::GenCfg { max_decls: 8, budget: 400, ..splgen::prog::GenCfg::default() };
+            let big = splgen::text::gen_valid_text(&mut s, &cfg, splgen::layout::Style::Plain);
+            model[u] = Some(big.clone());
+            ops.push(Op::Open(u, big));
+            let run = 40 + s.below(260);
+            for _ in 0..run {
+                let mut text = model[u].clone().unwrap();
+                let mut labels = Vec::new();
+                let a = gen_pos(&mut s, &text, &mut labels);
+                let ch = Change { range: Some((a, a)), text: s.pick(&[" ", "x", "\n", "1", ";"]).to_string() };
+                lsp::apply(&mut text, &ch);
+                model[u] = Some(text);
+                ops.push(Op::Change(u, vec![ch]));
+            }
+            ops.push(Op::ReadText(u));
+            continue;
+        }
         let u = s.below(n_uris);
         let op = match s.below(16) {
             0 | 1 => {
@@ -360,11 +385,11 @@ pub fn checks() -> Vec<Box<dyn Check>> {
 }
 
 pub fn run(ctx: &Ctx) -> i32 {
-    let parts = vec![crate::corpus_part(ctx, &checks()), run_pbt(ctx, &Bursts, ctx.n(1_200, 20_000))];
+    let parts = vec![crate::corpus_part(ctx, &checks()), run_pbt(ctx, &Bursts, ctx.n(600, 12_000))];
     finish(
         ctx,
         parts,
-        "bursts of 100-800 messages (didOpen / didChange with 1-2 ranged changes or a full-text change / didClose / hover / $/verif/text / unknown notifications) over 2-5 URIs including pairs that differ only in scheme, authority or suffix, written to the real binary without waiting for answers (1, 3 or 16 writes) while the reader starts after 0-120 ms (back-pressure beyond the channel capacities of 32), with and without the publishDiagnostics capability, each burst under two schedules; oracle: client text model per full URI: every $/verif/text and hover answer reflects exactly the notifications before it in the stream, responses in request order, last diagnostics per open URI = the diagnostics the in-process broker computes when the document's own notifications are replayed without load, none without the capability, closed documents answer null, exit status 0; non-trivial = more than 64 messages with more than 20 switches between URIs; distinct = distinct burst; evaluations = server runs",
+        "bursts of 100-800 messages plus, in half of the bursts, 1-3 floods of 40-300 consecutive change notifications on a larger document (didOpen / didChange with 1-2 ranged changes or a full-text change / didClose / hover / $/verif/text / unknown notifications) over 2-5 URIs including pairs that differ only in scheme, authority or suffix, written to the real binary without waiting for answers (1, 3 or 16 writes) while the reader starts after 0-120 ms (back-pressure beyond the channel capacities of 32), with and without the publishDiagnostics capability, each burst under two schedules; oracle: client text model per full URI: every $/verif/text and hover answer reflects exactly the notifications before it in the stream, responses in request order, last diagnostics per open URI = the diagnostics the in-process broker computes when the document's own notifications are replayed without load, none without the capability, closed documents answer null, exit status 0; non-trivial = more than 64 messages with more than 20 switches between URIs; distinct = distinct burst; evaluations = server runs",
         &[
             "the tokio scheduler is not controlled: schedules are sampled (two runs per burst with different reader delays), not enumerated",
             "didChange for a document that is not open must be ignored",
